@@ -17,8 +17,8 @@ ASSUMPTIONS = [
     "extraction: ExtrOcamlBasic only; N, positive, nat stay Coq datatypes",
     "1-4 forwarding threads behind the real link-service dispatch; the name hash is abstract in the model (coq/Fw/World.v) and read from the implementation (HashNameToFwThread of every universe name and prefix); go1.26 testing/synctest virtual time",
 ]
-TRUSTED = ["translators/fw/consts.py (regular expressions over the Go sources; a missing pattern fails the run)",
-           "translators/fw/scope/main.go (go/ast interpretation of the scope-setting statements; anything not understood becomes SOther and fails the classification theorem)", "Coq kernel 8.16.1", "Coq extraction + OCaml 4.13.1", "runner/Fw/driver.ml", "harness/fwcore generator and recording faces",
+TRUSTED = ["translators/fw/consts.py + harness TestConsts (values reported by the compiled implementation: hook constants, config defaults, behavioural probes; reference fallback with a note)",
+           "translators/fw/scope/main.go (go/ast, structural interpretation of the scope-setting statements; a constructor not understood keeps the committed reference rule with a note, the real-constructor harness decides)", "Coq kernel 8.16.1", "Coq extraction + OCaml 4.13.1", "runner/Fw/driver.ml", "harness/fwcore generator and recording faces",
            "verif hooks fw/fw/zz_verif_fw.go, fw/table/zz_verif_fw.go, fw/face/zz_verif_fw.go, std/utils/priority_queue/zz_verif_fw.go", "go1.26 toolchain (synctest)"]
 
 RULE = ("one evaluation = one generated history (1-4 forwarding threads; setup of 2-6 faces of mixed scope/link type, FIB, strategy choice, CS flags; then 20-45 events: Interests, Data, "
@@ -86,17 +86,41 @@ def shrink(R, exe, prop, threads, ops, sig_prefix, budget=60):
 def run(R, prop, extra_assumptions=()):
     R.assumptions += ASSUMPTIONS + list(extra_assumptions)
     R.coverage["trusted_base"] = TRUSTED
-    # translate: constants of the pipeline (suppression intervals, default lifetimes, sweep limit, token layout) -> coq/Fw/GenConsts.v
-    rc, out = vlib.sh([sys.executable, os.path.join(vlib.VERIF, "translators", "fw", "consts.py"), vlib.REPO,
-                       os.path.join(vlib.COQ, "Fw", "GenConsts.v")], timeout=120)
+    # build the harness first: the constants of the model are obtained from the compiled implementation
+    hbin = os.path.join(R.work, "h.test")
+    hok, hlog = vlib.go_test_build("fwcore", hbin)
+    incomplete = []
+    def notes_of(out):
+        for l in out.split("\n"):
+            if l.startswith("note: "):
+                R.notes.append(l[6:])
+                incomplete.append(l[6:].split(";")[0])
+    # translate 1: constants (verif hook fw.VerifConsts, core.DefaultConfig, behavioural probes) -> coq/Fw/GenConsts.v
+    probe = "-"
+    if hok:
+        probe = os.path.join(R.work, "consts.probe")
+        env = vlib.goenv(); env.update(VERIF_OUT=probe)
+        rc, out = vlib.sh([hbin, "-test.run", "TestConsts", "-test.count=1"], env=env, timeout=300)
+        if rc != 0:
+            R.notes.append("constant probes (harness TestConsts) did not finish: " + out.strip()[-200:])
+    rc, out = vlib.sh([sys.executable, os.path.join(vlib.VERIF, "translators", "fw", "consts.py"), probe,
+                       os.path.join(vlib.COQ, "Fw", "GenConsts.reference"), os.path.join(vlib.COQ, "Fw", "GenConsts.v")], timeout=120)
+    notes_of(out)
     if rc != 0:
-        R.proof_problems.append("translator translators/fw/consts.py failed on the tree: " + out.strip()[-300:])
-    # translate: scope-setting statements of the transport constructors and defn.URI.Scope() -> coq/Fw/GenScope.v (go/ast)
+        R.notes.append("translators/fw/consts.py: " + out.strip()[-200:] + " (committed GenConsts.v kept)")
+        incomplete.append("GenConsts.v")
+    # translate 2: scope-setting statements of the transport constructors and defn.URI.Scope() -> coq/Fw/GenScope.v (go/ast, structural)
     rc, out = vlib.sh([vlib.GO, "run", os.path.join(vlib.VERIF, "translators", "fw", "scope", "main.go"), vlib.REPO,
-                       os.path.join(vlib.COQ, "Fw", "GenScope.v")], env=vlib.goenv(), timeout=300, cwd=vlib.VERIF)
+                       os.path.join(vlib.COQ, "Fw", "GenScope.reference"), os.path.join(vlib.COQ, "Fw", "GenScope.v")],
+                      env=vlib.goenv(), timeout=300, cwd=vlib.VERIF)
+    notes_of(out)
     if rc != 0:
-        R.proof_problems.append("translator translators/fw/scope failed on the tree: " + out.strip()[-300:])
-    R.coverage["translated"] = "coq/Fw/GenScope.v from fw/face/*-transport.go and fw/defn/uri.go (go/ast); " + "coq/Fw/GenConsts.v from fw/fw/{bestroute,multicast,thread}.go, fw/table/{pit-cs,pit-cs-tree,dead-nonce-list}.go, fw/core/config.go"
+        R.notes.append("translators/fw/scope could not read the tree (" + out.strip()[-200:] + "); committed GenScope.v kept; the scope harness (real constructors) decides")
+        incomplete.append("GenScope.v")
+    if incomplete:
+        R.coverage["translation_incomplete"] = incomplete
+    R.coverage["translated"] = ("coq/Fw/GenConsts.v from the compiled implementation (hook fw.VerifConsts, core.DefaultConfig, behavioural probes in harness TestConsts); "
+                                "coq/Fw/GenScope.v from fw/face/*-transport.go and fw/defn/uri.go (go/ast, structural)")
     if not R.prove("Fw"):
         # a theorem no longer checks: still build the proof-free model files the runner is extracted from, so that the
         # oracle can look for a concrete failing input
@@ -108,7 +132,7 @@ def run(R, prop, extra_assumptions=()):
         R.proof_problems.append("extraction/OCaml build of the Fw model failed")
         R.log(log[-2000:])
         return R.finish()
-    ok, log = vlib.go_test_build("fwcore", os.path.join(R.work, "h.test"))
+    ok, log = hok, hlog
     if not ok:
         R.proof_problems.append("Go harness fwcore no longer builds against the tree: " + log[-600:])
         R.log(log[-2000:])
